@@ -4,7 +4,10 @@
 // manual's sentences as possible; the sentence is quoted next to the code.
 package refstr19
 
-import "math/big"
+import (
+	"math/big"
+	"unicode/utf8"
+)
 
 // Translate applies "Indices are allowed to be negative and are interpreted
 // as indexing backwards, from the end of the string. Thus, the last character
@@ -137,6 +140,31 @@ func Lower(s string) string {
 		}
 	}
 	return string(b)
+}
+
+// CaseDetermined reports whether the manual determines upper(s) and lower(s)
+// in golua: "The definition of what an uppercase letter is depends on the
+// current locale."  golua has no locale setting other than "C", but its
+// implementation treats strings as UTF-8 text, so for a well-formed multi-byte
+// UTF-8 sequence (a non-ASCII letter in a UTF-8 locale) either reading of
+// "current locale" is defensible and the case is left open.  ASCII bytes are
+// letters or non-letters identically in both readings, and a byte >= 0x80
+// that is not part of a well-formed UTF-8 sequence is not a letter of any
+// locale: for strings made of these only, the C-locale result is required
+// ("All other characters are left unchanged").
+func CaseDetermined(s string) bool {
+	for i := 0; i < len(s); {
+		if s[i] < 0x80 {
+			i++
+			continue
+		}
+		r, n := utf8.DecodeRuneInString(s[i:])
+		if r != utf8.RuneError || n > 1 {
+			return false // a well-formed multi-byte sequence
+		}
+		i++
+	}
+	return true
 }
 
 // Len is string.len: "Embedded zeros are counted".
